@@ -125,11 +125,11 @@ def _never_none(prog, fe, at, depth=0):
     return True, ""
 
 
-def _key_names(fi):
-    """names of fi bound to element 0 of its first parameter (the parameter name of the (name, dict) pair)"""
+def _key_names(fi, p=None):
+    """names of fi bound to element 0 of the parameter p (default: the first), the (name, dict) pair"""
     if not fi.params():
         return set()
-    p = fi.params()[0]
+    p = p or fi.params()[0]
     out = set()
     for st in ast.walk(fi.node):
         if isinstance(st, ast.Assign) and isinstance(st.targets[0], ast.Tuple) and st.targets[0].elts and isinstance(st.targets[0].elts[0], ast.Name):
@@ -142,28 +142,47 @@ def _key_names(fi):
     return out
 
 
-def _slot_ok_fn(prog, fi, ctor, slot_of, depth=0):
-    """every `ctor(...)` built in fi (and in functions it returns the result of) names its slot by the key"""
-    keys = _key_names(fi)
-    p0 = fi.params()[0] if fi.params() else None
+def _slot_ok_fn(prog, fi, ctor, slot_of, depth=0, keys=None, item="__first__"):
+    """every `ctor(...)` built in fi (and in functions it returns the result of) names its slot by the key.
+    `item` is the parameter of fi holding the (name, dict) pair, `keys` the names of fi known to hold the parameter's key;
+    by default the first parameter is the pair and the keys are what is unpacked from its element 0."""
+    if item == "__first__":
+        item = fi.params()[0] if fi.params() else None
+    p0 = item
+    keys = set(keys or ()) | (_key_names(fi, p0) if p0 else set())
     probs, n = [], 0
+
+    def is_key_expr(x):
+        return (isinstance(x, ast.Name) and x.id in keys) or \
+            (isinstance(x, ast.Subscript) and isinstance(x.value, ast.Name) and x.value.id == p0 and isinstance(x.slice, ast.Constant) and x.slice.value == 0)
+
     for c in ast.walk(fi.node):
         if isinstance(c, ast.Call) and (c.func.id if isinstance(c.func, ast.Name) else getattr(c.func, "attr", "")) == ctor:
             slot = slot_of(c)
             if slot is None:
                 continue
             n += 1
-            nm = names_in(slot)
-            direct = any(isinstance(x, ast.Subscript) and isinstance(x.value, ast.Name) and x.value.id == p0 and isinstance(x.slice, ast.Constant) and x.slice.value == 0 for x in ast.walk(slot))
-            if not (nm & keys or direct):
+            if not any(is_key_expr(x) for x in ast.walk(slot)):
                 probs.append("%s names its element by %s, not by the parameter's key" % (ctor, src(slot, 40)))
-            elif (nm - keys - {p0}) and not direct:
-                pass
     for r in ast.walk(fi.node):
-        if isinstance(r, ast.Return) and isinstance(r.value, ast.Call) and depth < 2:
+        if isinstance(r, ast.Return) and isinstance(r.value, ast.Call) and depth < 3:
             for t in prog.resolve_expr_fn(r.value.func, r):
                 if isinstance(t, FunctionInfo) and t is not fi:
-                    n2, p2 = _slot_ok_fn(prog, t, ctor, slot_of, depth + 1)
+                    # bind the callee's parameters: which of them receive the pair, which the key
+                    tp = t.params()
+                    bound = list(zip(tp, r.value.args)) + [(k.arg, k.value) for k in r.value.keywords if k.arg in tp]
+                    item2, keys2 = None, set()
+                    for pn, a in bound:
+                        if isinstance(a, ast.Name) and a.id == p0:
+                            item2 = pn
+                        elif isinstance(a, ast.Tuple) and a.elts and is_key_expr(a.elts[0]):
+                            item2 = pn
+                        elif is_key_expr(a):
+                            keys2.add(pn)
+                    if item2 is None and not keys2:
+                        n2, p2 = _slot_ok_fn(prog, t, ctor, slot_of, depth + 1)
+                    else:
+                        n2, p2 = _slot_ok_fn(prog, t, ctor, slot_of, depth + 1, keys=keys2, item=item2)
                     n += n2
                     probs += p2
     return n, probs
@@ -241,6 +260,12 @@ def rule_order(prog, rep, tier, only=None):
                 else:
                     break
                 child, p = p, p._parent
+            # statement form: `for item in items: [if <name-only test>:] X.append(item | element)`
+            if fe is None and verdict is None and isinstance(s._parent, ast.For) and s._parent.iter is s:
+                done = _loop_form(prog, rep, fi, q, s, s._parent, ctor, slot_of, comp_filters, irp)
+                if done:
+                    n_seq += done
+                    continue
             # a filtered tuple bound to a name and mapped later: follow one local
             if fe is None and verdict is None:
                 st = s
@@ -248,20 +273,9 @@ def rule_order(prog, rep, tier, only=None):
                     st = st._parent
                 if isinstance(st, ast.Assign) and isinstance(st.targets[0], ast.Name):
                     var = st.targets[0].id
-                    uses = [m for m in ast.walk(fi.node) if isinstance(m, ast.Call) and (m.func.id if isinstance(m.func, ast.Name) else "") == "map" and len(m.args) == 2
-                            and isinstance(m.args[1], ast.Name) and m.args[1].id == var]
-                    for m in uses:
-                        n_seq += 1
-                        self_check(prog, rep, fi, q, m.args[0], m, ctor, slot_of, "map over %s" % var)
-                    cuses = [m for m in ast.walk(fi.node) if isinstance(m, (ast.ListComp, ast.GeneratorExp)) and len(m.generators) == 1
-                             and isinstance(m.generators[0].iter, ast.Name) and m.generators[0].iter.id == var]
-                    for m in cuses:
-                        n_seq += 1
-                        if m.generators[0].ifs:
-                            rep.violation(Finding("ORDER", q, "sequence:%s" % src(m, 60), "condition in a comprehension over the per-parameter sequence %s: %s" % (var, src(m.generators[0].ifs[0], 50)), loc(prog, m)))
-                        else:
-                            self_check(prog, rep, fi, q, m, m, ctor, slot_of, "comprehension over %s" % var)
-                    if uses or cuses:
+                    k = _follow_var(prog, rep, fi, q, var, ctor, slot_of)
+                    if k:
+                        n_seq += k
                         continue
             if verdict:
                 n_seq += 1
@@ -287,6 +301,71 @@ def rule_order(prog, rep, tier, only=None):
                 rep.holds("ORDER", "%s: name-only partition with its complement consumed" % q, loc(prog, first_node), "")
         if n_seq == 0:
             raise AnalysisError("ORDER: no per-parameter sequence recognised in %s" % q)
+
+
+def _follow_var(prog, rep, fi, q, var, ctor, slot_of):
+    """uses of a local holding a per-parameter sequence of items: map(f, var) and comprehensions over var"""
+    n_seq = 0
+    uses = [m for m in ast.walk(fi.node) if isinstance(m, ast.Call) and (m.func.id if isinstance(m.func, ast.Name) else "") == "map" and len(m.args) == 2
+            and isinstance(m.args[1], ast.Name) and m.args[1].id == var]
+    for m in uses:
+        n_seq += 1
+        self_check(prog, rep, fi, q, m.args[0], m, ctor, slot_of, "map over %s" % var)
+    cuses = [m for m in ast.walk(fi.node) if isinstance(m, (ast.ListComp, ast.GeneratorExp)) and len(m.generators) == 1
+             and isinstance(m.generators[0].iter, ast.Name) and m.generators[0].iter.id == var]
+    for m in cuses:
+        n_seq += 1
+        if m.generators[0].ifs:
+            rep.violation(Finding("ORDER", q, "sequence:%s" % src(m, 60), "condition in a comprehension over the per-parameter sequence %s: %s" % (var, src(m.generators[0].ifs[0], 50)), loc(prog, m)))
+        else:
+            self_check(prog, rep, fi, q, m, m, ctor, slot_of, "comprehension over %s" % var)
+    return n_seq
+
+
+def _loop_form(prog, rep, fi, q, s, loop, ctor, slot_of, comp_filters, irp):
+    """`for item in <params>.items(): ...` with the per-parameter sequences accumulated by X.append(...).  Every append is
+    judged with the conditions that guard it inside the loop: none -> the full image; name-only tests -> a partition
+    (recorded, the complement must be consumed too); anything else -> a filter that can drop parameters."""
+    keys = _is_params_items(s, irp) == "keys"
+    tgt = loop.target
+    appends = []
+    for c in ast.walk(loop):
+        if isinstance(c, ast.Call) and isinstance(c.func, ast.Attribute) and c.func.attr == "append" and isinstance(c.func.value, ast.Name) and len(c.args) == 1 \
+                and isinstance(getattr(c, "_parent", None), ast.Expr):
+            appends.append((c.func.value.id, c.args[0], c))
+    if not appends:
+        return 0
+    if any(isinstance(x, ast.Break) for x in ast.walk(loop)):
+        rep.violation(Finding("ORDER", q, "sequence:break-in-loop", "the loop over the parameter mapping can stop early (break): later parameters are dropped", loc(prog, loop)))
+        return 1
+    n = 0
+    item_vars = set()
+    for var, elt, call in appends:
+        bad = None
+        for t, pol in expr_guards(call, stop=loop):
+            core = _comp_pred_core(tgt, t, keys=keys)
+            if core is None:
+                bad = "an append guarded by a condition that looks beyond the parameter name: %s" % src(t, 60)
+                break
+            c0, neg = core
+            comp_filters.append(((c0, neg != (not pol)), call))
+        if bad:
+            n += 1
+            rep.violation(Finding("ORDER", q, "sequence:%s" % src(call, 60),
+                                  "the per-parameter sequence of %s is not an order- and count-preserving image of the parameter mapping: %s" % (q, bad), loc(prog, call)))
+            continue
+        is_item = dump(elt) == dump(tgt) or (isinstance(elt, ast.Name) and isinstance(tgt, ast.Name) and elt.id == tgt.id)
+        if is_item:
+            item_vars.add(var)
+            continue
+        # an element built in place: judge it as the element of a comprehension over the same iteration
+        n += 1
+        fake = ast.ListComp(elt=elt, generators=[ast.comprehension(target=tgt, iter=s, ifs=[], is_async=0)])
+        self_check(prog, rep, fi, q, fake, call, ctor, slot_of, "loop append to %s" % var)
+    for var in sorted(item_vars):
+        k = _follow_var(prog, rep, fi, q, var, ctor, slot_of)
+        n += k
+    return n
 
 
 def self_check(prog, rep, fi, q, fe, at, ctor, slot_of, how):
